@@ -545,7 +545,7 @@ pub fn clone_panics(site: usize, co_kind: usize, st: &mut FStats) -> R {
         };
         ensure!(
             ccount == survivors_on_orig,
-            "C07,C04,C08",
+            if site == 2 { "C07,C04,C09" } else { "C07,C04,C08" },
             "faults",
             "{}: the original allocation reports count {} but {} owning handles survive",
             what,
